@@ -153,7 +153,7 @@ def check_case(case):
     rng = random.Random(case["probe_seed"])
     isdata = prog["kind"] == "data"
     fc = case.get("failing_call")
-    if fc:
+    if fc and "args" in fc:
         V1 = V2 = V3 = V4 = [[MG.unhex(a) for a in fc["args"]]]
     elif isdata:
         V1 = data_vectors(P, rng, int(param("vectors", 200)))
@@ -285,16 +285,17 @@ def check_case(case):
         # known class: the call is dropped and counted, the rest of the program is still checked
         kc = dict(case)
         if fcall:
-            kc["failing_call"] = fcall
+            kc["failing_call"] = dict(fcall, key=key)
         MG.stash_known(key, msg + "\n--- program ---\n" + P.text, kc)
         nknown += 1
     fails = [f for f in fails if f[0] not in KNOWN]
     if nknown:
         classes.append("excluded_known_calls")
     if fails:
-        key, msg, fcall = fails[0]
-        if fcall:
-            case["failing_call"] = fcall
+        want = (fc or {}).get("key")  # replay: the recorded finding first
+        key, msg, fcall = ([f for f in fails if f[0] == want] or fails)[0]
+        fcall = dict(fcall or {}, key=key)
+        case["failing_call"] = fcall
         MG.note_failure()
         return Result(False, key=key, msg=msg + "\n--- program ---\n" + P.text)
     nontrivial = (isdata and len(P.ys_lit) >= 2 and P.nin == 1) or (not isdata and P.nin >= 2 and bool(ov1))
@@ -313,7 +314,7 @@ def tab_ref(interp, extrapolate):
     def f(T):
         v, scale = MG.table_reference(xs, ys, interp, extrapolate, T)
         return float(v), (2000.0 if interp == "cubic_spline" else 16.0) * MG.EPS * float(scale)
-    return f
+    return lambda a, p: f(a[0])
 
 
 def _inconel(TK):
